@@ -1,26 +1,20 @@
-"""Per-property configuration of ./check (what to build, which harness components to run)."""
+"""Per-property configuration of ./check: one file lib/propcfg/<id>.py defining CFG (see C17.py).
 
-PROPS = {
-    "C17": {
-        "level_text": "Machine-checked Lean 4 theorems: the priority functions are REGENERATED from the Go source on every run "
-                      "(translator) and proved, for all inputs, equal to a Nat model that satisfies every clause of the property "
-                      "(formula, type/local preference tables, ranges, pair formula without overflow, monotonicity, mirror symmetry). "
-                      "A finite sample cannot cover 2^64 priority pairs or all 65536 offsets x configurations; the theorem does.",
-        "level_note": "Trusted: Lean kernel (axioms propext/Classical.choice/Quot.sound), the gotolean translator and its atom table "
-                      "(receiver fields passed as parameters), the harness. Foundation equality is checked by correspondence with a "
-                      "Lean CRC-32; CRC collisions are outside the claim as the property says.",
-        "components": [{"component": "prio"}],
-        "exhaustive_thorough": True,
-        "rule": "quick: type x network x TCP type x relay protocol x offsets {0..130, boundaries, 40 random} x 2 components, "
-                "all boundary pairs of pair priorities + 2000 random; thorough: all 65536 offsets x 7 components (exhaustive over "
-                "the finite candidate configuration space) + 10^6 random pairs. Distinct = distinct (operation, output) lines; "
-                "non-trivial = output is a computed priority (not skip/error).",
-        "translated": ["CandidateType.Preference", "relayProtocolPreference", "candidateBase.TypePreference",
-                       "candidateBase.LocalPreference", "candidateBase.Priority", "CandidatePair.priority"],
-        "trusted_base": ["CRC-32 (foundation) is an uninterpreted function of the string type+address+network type"],
-        "assumptions": ["receiver fields read by the translated methods are passed as parameters (atoms in harness/gotolean/spec.json)"],
-    },
-}
+CFG keys: level_text, level_note (MANIFEST), components (list of {component, bin?, args?, session_start?,
+trivial_regex?, env?, timeout_quick?, timeout_thorough?, shrink_s?}), rule, translated, trusted_base,
+assumptions, exhaustive_quick/exhaustive_thorough, lean_targets (default IceProps.<id>), technique.
+"""
+import glob
+import importlib.util
+import os
 
-# properties not (yet) claimed, with the reason shown in MANIFEST.not_applicable
+PROPS = {}
+_d = os.path.join(os.path.dirname(os.path.abspath(__file__)), "propcfg")
+for _f in sorted(glob.glob(os.path.join(_d, "C*.py"))):
+    _spec = importlib.util.spec_from_file_location("propcfg_" + os.path.basename(_f)[:-3], _f)
+    _m = importlib.util.module_from_spec(_spec)
+    _spec.loader.exec_module(_m)
+    PROPS[os.path.basename(_f)[:-3]] = _m.CFG
+
+# properties not claimed, with the reason shown in MANIFEST.not_applicable
 NOT_CLAIMED = {}
